@@ -411,3 +411,136 @@ func dominatedBySameShapeTest(fn *ssa.Function, ret *ssa.Return) bool {
 	}
 	return false
 }
+
+// ---- additional necessary conditions (defects found while the third round of seeded changes was prepared) ----
+
+func init() {
+	reg := registry["C13"]
+	reg.Meta.Rules["C13.6"] = "the chunk-index address patched into the header on disk is also stored in the cached header that Resize rewrites (otherwise Resize restores the index of the previous Write)"
+	reg.Meta.Rules["C13.7"] = "shrinking removes what lies outside the new extent: Resize rewrites the chunk index or clears the chunk data it cuts off; the reader ignores chunks beyond the extent"
+	reg.Meta.Rules["C13.8"] = "the padding of a boundary chunk is zero (shared with C01.7): newly exposed space reads as zero after a growing Resize"
+	reg.Rules = append(reg.Rules, c13cachedHeader, c13shrink, func(c *Ctx, r *Result) {
+		fn := c.Fn(r, "hdf5.DatasetWriter.writeChunkedData")
+		if fn == nil {
+			return
+		}
+		n := 0
+		for _, site := range callsIn(fn) {
+			call, ok := site.(*ssa.Call)
+			if !ok || call.Call.StaticCallee() == nil || !inModule(fnPkgPath(call.Call.StaticCallee())) {
+				continue
+			}
+			takesChunk, takesNominal := false, false
+			for _, a := range call.Call.Args {
+				if src, isCall := a.(*ssa.Call); isCall && c.calleeName(src) == "writer.ChunkCoordinator.ExtractChunkData" {
+					takesChunk = true
+				}
+				if valueReadsField(a, "hdf5.DatasetWriter.chunkDims", 0) {
+					takesNominal = true
+				}
+			}
+			if takesChunk && takesNominal {
+				n++
+				c01zeroPadding(c, r, call.Call.StaticCallee(), "C13.8")
+			}
+		}
+		if n == 0 {
+			r.Viol("C13.8", c.Name(fn)+"#boundary-chunk-padding", c.Pos(fn.Pos()), "boundary chunks are no longer expanded to the nominal shape with zero padding")
+		}
+		r.Floor("C13.8", 1)
+	})
+}
+
+func c13cachedHeader(c *Ctx, r *Result) {
+	fn := c.Fn(r, "hdf5.DatasetWriter.writeChunkedData")
+	if fn == nil {
+		return
+	}
+	// the disk patch: WriteAtAddress(buf, dw.layoutBTreeOffset)
+	var patch *ssa.Call
+	for _, site := range callsIn(fn) {
+		if c.calleeName(site) == "writer.FileWriter.WriteAtAddress" && valueReadsField(site.Common().Args[2], "hdf5.DatasetWriter.layoutBTreeOffset", 0) {
+			patch, _ = site.(*ssa.Call)
+		}
+	}
+	if patch == nil {
+		r.Errorf("C13.6: header patch not found in writeChunkedData")
+		return
+	}
+	buf := patch.Call.Args[1]
+	// the mirror: copy(msg.Data[..], buf) where msg comes from dw.objectHeader.Messages
+	mirrored := false
+	var at ssa.Instruction = patch
+	for _, site := range callsIn(fn) {
+		call, ok := site.(*ssa.Call)
+		if !ok {
+			continue
+		}
+		b, ok := call.Call.Value.(*ssa.Builtin)
+		if !ok || b.Name() != "copy" || call.Call.Args[1] != buf {
+			continue
+		}
+		dst := call.Call.Args[0]
+		for {
+			if sl, isSl := dst.(*ssa.Slice); isSl {
+				dst = sl.X
+				continue
+			}
+			break
+		}
+		ld, isLd := isLoad(dst)
+		if !isLd {
+			continue
+		}
+		if f, _ := fieldOfAddr(ld.X); f != nil && f.Name() == "Data" && valueReadsField(ld.X, "hdf5.DatasetWriter.objectHeader", 0) {
+			mirrored = true
+			at = call
+		} else if f != nil && f.Name() == "Data" {
+			// msg loaded from a range over dw.objectHeader.Messages
+			seen := false
+			instrs(fn, func(in ssa.Instruction) {
+				if l2, ok := in.(*ssa.UnOp); ok && l2.Op == token.MUL {
+					if fa, ok := l2.X.(*ssa.FieldAddr); ok {
+						if f2, base := fieldOfAddr(fa); f2 != nil && fieldKey(base.Type(), f2) == "hdf5.DatasetWriter.objectHeader" {
+							seen = true
+						}
+					}
+				}
+			})
+			if seen {
+				mirrored = true
+				at = call
+			}
+		}
+	}
+	r.Check(mirrored, "C13.6", c.Name(fn)+"#cached-header-follows-disk-patch", c.InstrPos(at), "the address bytes written at layoutBTreeOffset are also copied into the layout message of dw.objectHeader (the copy Resize and the attribute operations write back)")
+	// and the patch comes first (the cache is updated only when the disk write succeeded)
+	r.Floor("C13.6", 1)
+}
+
+func c13shrink(c *Ctx, r *Result) {
+	rz := c.Fn(r, "hdf5.DatasetWriter.Resize")
+	rd := c.Fn(r, "core.readChunkedData")
+	if rz == nil || rd == nil {
+		return
+	}
+	// writer side: does Resize reach anything that rewrites the chunk index or chunk bytes?
+	touches := c.reachesCallee(rz, func(n string) bool {
+		return n == "structures.ChunkBTreeWriter.WriteToFile" || n == "hdf5.DatasetWriter.writeChunkedData" || strings.HasSuffix(n, "ChunkBTreeWriter.AddChunkWithSize")
+	})
+	r.Check(touches, "C13.7", c.Name(rz)+"#shrink-drops-chunks-outside-extent", c.Pos(rz.Pos()), "Resize never rewrites the chunk index nor clears chunk data: what a shrinking Resize cuts off is still stored and indexed, and comes back when the dataset grows again")
+	// reader side: chunks beyond the extent are skipped (C06.8 decides that the skip is justified; here: that it exists)
+	env := &polyEnv{c: c, fn: rd}
+	skip := false
+	for _, b := range rd.Blocks {
+		ifi, ok := b.Instrs[len(b.Instrs)-1].(*ssa.If)
+		if !ok {
+			continue
+		}
+		if p, rel, ok := env.condFact(ifi.Cond, true); ok && rel == ">=0" && (p.equal(P("chunksize*scaled", 1, "dims", -1))) {
+			skip = true
+		}
+	}
+	r.Check(skip, "C13.7", c.Name(rd)+"#ignores-chunks-beyond-extent", c.Pos(rd.Pos()), "the full-read assembler tests scaled*chunkSize >= dims and leaves such chunks out (a shrunk dataset still lists them in its index)")
+	r.Floor("C13.7", 2)
+}
